@@ -77,6 +77,8 @@ types.append(record("Top3", [field("own", prim("string"), default=json.dumps("o"
 # record-typed fields whose default literal is an (empty / non-empty) object: the nested record's own defaults apply
 types.append(record("Hold3", [field("hb", ref("Base3"), default="{}"), field("hs", ref("Base3"), default="{ }"),
                               field("hi", ref("Inner"), default=json.dumps({"s": "x"}))]))
+# a required record-typed field whose record has defaults, next to a default of the record's own
+types.append(record("Wrap3", [field("b3", ref("Base3")), field("own", prim("string"), default=json.dumps("w"))]))
 types.append(record("Plain3", [field("p", prim("string"), True)], includes=["Mid3"]))
 # a record with more required fields than a machine word has bits
 types.append(record("Wide", [field("f%02d" % i, prim("string")) for i in range(66)]))
